@@ -13,7 +13,7 @@ Notation reader := (reader G). Notation writer := (writer G).
 (* how many of the pending arrival stamps a non-blocking step starting at t takes *)
 Definition cnt_fn c (t : Z) (l : list tok) : nat :=
   if c_buffer (conn G c)
-  then count_buffer (n_period (node G (c_out (conn G c)))) (c_phase (conn G c)) t l
+  then count_buffer (c_skip (conn G c)) (n_period (node G (c_out (conn G c)))) (c_phase (conn G c)) t l
   else count_latest (c_skip (conn G c)) t l.
 
 (* number of arrival stamps consumed before the i-th selection *)
